@@ -293,6 +293,24 @@ func runC17(r *simkit.Run) {
 		// round trip
 		var enc []byte
 		guard("MarshalBytes", func() { enc = def.MarshalBytes() })
+		encKept := append([]byte(nil), enc...)
+		defer func() {
+			if r.Failed() {
+				return
+			}
+			// the bytes handed out are the caller's (they go into a transaction and a database
+			// row): encoding other definitions later must not change them
+			other := svc.EventTriggerDefinition{Contract: def.Contract, LogPredicates: def.LogPredicates}
+			other.Contract[0] ^= 0xff
+			guard("MarshalBytes(other)", func() { _ = other.MarshalBytes(); _ = other.MarshalBytes() })
+			var again svc.EventTriggerDefinition
+			if !bytes.Equal(enc, encKept) {
+				r.Fail("encoding-changed-by-later-encode", "roundtrip", "the encoding of %s changed from %x to %x after another definition was encoded", describeDef(rd), encKept, enc)
+			}
+			if e := again.UnmarshalBytes(enc); e != nil || !defsEquivalent(def, &again) {
+				r.Fail("roundtrip-not-equivalent", "roundtrip", "definition %s no longer decodes from its encoding after a later encode (%v)", describeDef(rd), e)
+			}
+		}()
 		var back svc.EventTriggerDefinition
 		var derr error
 		guard("UnmarshalBytes", func() { derr = back.UnmarshalBytes(enc) })
